@@ -263,6 +263,100 @@ def guarded_by_presence_test(site, parents):
     return None
 
 
+def _lit_int(e, minimum=0):
+    if e is None or e.get("k") != "lit":
+        return None
+    v = str(e.get("v", ""))
+    v = v.split(":", 1)[-1]
+    digits = "".join(ch for ch in v if ch.isdigit())
+    if not digits or not v[0].isdigit():
+        return None
+    n = int(digits) if v.isdigit() else None
+    if n is None:
+        try:
+            n = int(v.rstrip("usizeu32i648") or "x")
+        except ValueError:
+            return None
+    return n if n >= minimum else None
+
+
+def _window_size(e):
+    """N if the iterator expression `e` goes over `.windows(N)` / `.chunks_exact(N)` with a literal N (through adapters that keep the items)."""
+    keep = {"iter", "into_iter", "enumerate", "filter", "skip", "take", "rev", "peekable", "by_ref"}
+    for x in fb.walk(e):
+        if x.get("k") == "mcall" and x["name"] in ("windows", "chunks_exact", "array_windows") and x.get("args"):
+            n = _lit_int(x["args"][0], 1)
+            if n is not None:
+                return n
+    return None
+
+
+def _window_index(node, parents):
+    """`w[i]` with a literal i < N where `w` is the item of an iteration over `.windows(N)` (closure parameter or for-loop binding)."""
+    i = _lit_int(node.get("i"))
+    base = node.get("e")
+    if i is None or base is None or base.get("k") != "path" or base.get("res") != "local":
+        return None
+    lid = base["id"]
+    child = node
+    for p in reversed(parents):
+        if p.get("k") == "closure" and any(b == lid for prm in p.get("params", []) for _n, b in fb.pat_bindings(prm)):
+            # the call the closure is an argument of
+            idx = parents.index(p)
+            if idx > 0 and parents[idx - 1].get("k") == "mcall" and parents[idx - 1].get("recv") is not None:
+                n = _window_size(parents[idx - 1]["recv"])
+                if n is not None and i < n:
+                    return "item of `.windows(%d)`: index %d is in bounds" % (n, i)
+            return None
+        if p.get("k") == "match" and p.get("src") == "ForLoopDesugar":
+            n = _window_size(p.get("e"))
+            if n is not None and i < n and any(b == lid for a in fb.walk(p, with_pats=True) if fb.is_pat(a) for _n, b in fb.pat_bindings(a)):
+                return "item of a loop over `.windows(%d)`: index %d is in bounds" % (n, i)
+        child = p
+    return None
+
+
+def _stable_place(e, assigned):
+    while e is not None and e.get("k") == "field":
+        e = e.get("e")
+    return e is not None and e.get("k") == "path" and e.get("res") == "local" and e.get("id") not in assigned
+
+
+def _sub_guarded(fn, span):
+    """`a - b` in the then-branch of `if b <= a` (or `a >= b`, `b < a`, `a > b`) with a and b places that are never assigned: cannot underflow."""
+    if not span or fn.body is None:
+        return None
+    assigned = getattr(fn, "_assigned", None)
+    if assigned is None:
+        assigned = set()
+        for node in fb.walk(fn.body):
+            if node.get("k") in ("assign", "assignop"):
+                l = node["l"]
+                while isinstance(l, dict) and l.get("k") in ("field", "index", "unary"):
+                    l = l.get("e")
+                if isinstance(l, dict) and l.get("k") == "path" and l.get("res") == "local":
+                    assigned.add(l["id"])
+    for node, parents in fb.walk_with_parents(fn.body):
+        if node.get("k") == "binary" and node.get("op") == "-" and node.get("s") and node["s"][0] == span[0] and node["s"][1] == span[1]:
+            a, b = node["l"], node["r"]
+            if not (_stable_place(a, assigned) and _stable_place(b, assigned)):
+                return None
+            sa, sb = fb.show(a), fb.show(b)
+            child = node
+            for p in reversed(parents):
+                if p.get("k") == "if" and child is p.get("t"):
+                    for c in _conjuncts(p["c"]):
+                        if c.get("k") == "binary":
+                            l, r, op = fb.show(c["l"]), fb.show(c["r"]), c.get("op")
+                            if (op in ("<=", "<") and l == sb and r == sa) or (op in (">=", ">") and l == sa and r == sb):
+                                return "then-branch of `if %s`: the subtraction cannot underflow" % fb.show(c)
+                if p.get("k") == "closure":
+                    break
+                child = p
+            return None
+    return None
+
+
 class Site:
     __slots__ = ("fn", "kind", "origin", "ordinal", "loc", "detail", "auto", "body_def")
 
@@ -313,13 +407,20 @@ def sites_of(facts, fn):
                 out.append((node["s"][0], Site(fn.def_, UNWRAPS[c], _origin(node["recv"]), "%s:%s" % (fn.file, node.get("ln")),
                                                fb.show(node)[:200], auto)))
             elif c in PANICKING_STD:
+                auto = None
+                if fb.last_seg(c) in ("windows", "chunks", "step_by") and _lit_int(node["args"][0] if node.get("args") else None, 1) is not None:
+                    auto = "`%s` with a non-zero literal size cannot panic" % fb.last_seg(c)
                 out.append((node["s"][0], Site(fn.def_, "std-panicking-call", "call:" + fb.last2(c), "%s:%s" % (fn.file, node.get("ln")),
-                                               fb.show(node)[:200])))
+                                               fb.show(node)[:200], auto)))
         elif k == "index":
             out.append((node["s"][0], Site(fn.def_, "index", "%s[%s]" % (_origin(node["e"]), _origin(node["i"])),
-                                           "%s:%s" % (fn.file, node.get("ln")), fb.show(node)[:200])))
+                                           "%s:%s" % (fn.file, node.get("ln")), fb.show(node)[:200], _window_index(node, list(parents)))))
     # ---- MIR sites (explicit panics and arithmetic asserts), fn + closures
     bodies = [fn] + facts.closures_of.get(fn.def_, [])
+    for h in getattr(fn, "absorbed_fns", None) or []:      # helpers analysed inlined into this fn (vlib/inline.py)
+        hf = facts.fns.get(h)
+        if hf is not None:
+            bodies += [hf] + facts.closures_of.get(h, [])
     for b in bodies:
         if not b.mir:
             continue
@@ -354,8 +455,9 @@ def sites_of(facts, fn):
                         continue
                     shape = ",".join("const" if o.startswith("const") else "var" for o in (ops or []))
                     origin = "%s<%s>(%s)" % (msg, ty, shape)
+                    auto = _sub_guarded(fn, t.get("s")) if msg.startswith("overflow:Sub") or msg.startswith("overflow(Sub") or "Sub" in msg else None
                     out.append((t["s"][0], Site(fn.def_, "arith", origin, "%s:%s" % (fn.file, t.get("ln")),
-                                                "arithmetic assert %s on %s" % (msg, ty), None, b.def_)))
+                                                "arithmetic assert %s on %s" % (msg, ty), auto, b.def_)))
     out.sort(key=lambda x: x[0])
     counts = {}
     res = []
@@ -387,7 +489,7 @@ def inventory(facts, rep, rule, roots, floor=None, exclude=(), prop=None):
     cg = facts.callgraph
     reach = cg.reachable_from(roots)
     tab = table()
-    fns = [f for f in facts.fn_list if f.kind != "closure" and f.body is not None and f.def_ in reach]
+    fns = [f for f in facts.fn_list if f.kind != "closure" and f.body is not None and f.def_ in reach and not f.absorbed]
     all_sites = []
     for f in sorted(fns, key=lambda x: x.def_):
         if any(f.def_.startswith(x) for x in exclude):
